@@ -203,6 +203,8 @@ class SymArray(_ND):
 
     def astype(self, dtype, order="K", casting="unsafe", subok=True, copy=True):
         dt = _np.dtype(dtype)
+        if not copy and dt == self._vd:
+            return self      # numpy semantics: no copy when the dtype already matches (aliasing matters for purity checks)
         if dt.kind in "US":
             # only used for messages / repr
             return _np.array([repr(x) for x in self.plain.reshape(-1)], dtype=object).reshape(self.shape).astype(str)
